@@ -618,7 +618,7 @@ def run_c03(ctx):
                 extra.append(base + ["SEED %d" % ctx.rng.randint(1, 1 << 30)])
         for _ in range(20000 if thorough else 6000):
             c = gen_sync_case(ctx.rng, data=True)
-            extra.append(c + ["SEED %d" % ctx.rng.randint(1, 1 << 30)])
+            extra.append(c + ["WF 1", "SEED %d" % ctx.rng.randint(1, 1 << 30)])
 
         def oneimpl(case):
             rc, o, e = vlib.sh([impl], inp="\n".join(case) + "\n", timeout=60)
@@ -626,6 +626,16 @@ def run_c03(ctx):
 
         for case, (rc, lines) in zip(extra, vlib.parallel(oneimpl, extra)):
             ctx.count("search:extra-schedules")
+            # third clause of C03 ("readers that keep reading always reach the drained state"): a reader that is handed an EMPTY region
+            # while committed bytes have not been delivered to it can read for ever without reaching it (data-level view of the run)
+            xo, xr = x_history(lines)
+            for (p_, key_, msg_, k_) in (oracle(xo, xr, tolerant=True) if xo else []):
+                if key_ == "empty-not-drained" and not ctx.has_violation("reader-never-drains"):
+                    sched = next((l.split()[1:] for l in lines if l.startswith("SCHEDULE")), [])
+                    ctx.violation(msg_ + ": a reader that keeps reading gets empty regions although it is not drained (and a writer waiting for "
+                                  "that reader's space is never released)  [found by the implementation-only schedule search]",
+                                  {"case": case, "schedule": sched, "data_history": list(zip(xo[:k_ + 1], xr[:k_ + 1]))[-30:],
+                                   "how": "feed `case` with the line 'SCHED <schedule>' to .build/C03/h_chansync"}, key="reader-never-drains")
             for key, msg in sync_oracle(case, lines):
                 if not ctx.has_violation(key):
                     sched = next((l.split()[1:] for l in lines if l.startswith("SCHEDULE")), [])
